@@ -39,6 +39,7 @@ Definition p_candidate : bytes := str "candidate".
 Definition p_config : bytes := str "config".
 Definition p_subscribers : bytes := str "e".
 Definition p_eacl : bytes := str "eACL".
+Definition p_estimate : bytes := str "cnr".
 
 Inductive contract : Type :=
 | CAlphabet | CAudit | CBalance | CContainer | CNeoFS | CNeoFSID
@@ -217,8 +218,7 @@ Section Model.
     fs <-! item_to_list x; onth fs i.
 
   (** Old snapshot [[]oldNode] -> [[]Node] with State = Online (1).
-      [var newnodes []Node] stays nil when the old list is empty, and
-      std.Serialize(nil) is the Null item. *)
+      [newnodes := []Node{}]: an empty old list stays an empty array. *)
   Fixpoint upgrade_nodes (nodes : list item) : outcome (list item) :=
     match nodes with
     | [] => Halt []
@@ -232,7 +232,7 @@ Section Model.
     it <-! deserialize d;
     nodes <-! item_to_list it;
     nn <-! upgrade_nodes nodes;
-    serialize (match nn with [] => INull | _ => IArray nn end).
+    serialize (IArray nn).
 
   (** [byte(i)] appended to a byte slice must fit one byte. *)
   Definition snapshot_key (i : Z) : outcome bytes :=
@@ -538,6 +538,9 @@ Section Model.
   Definition cnr_owned_new (s : store) (owner : bytes) : list (bytes * bytes) :=
     map (fun kv => (tail (fst kv), snd kv)) (sfind (owner_prefix :: owner) s).
   Definition cnr_eacl (s : store) (cid : bytes) : option bytes := sget (p_eacl ++ cid) s.
+  (** IterateContainerSizes(epoch, cid) scans ["cnr" ++ epoch ++ cid]. *)
+  Definition cnr_estimations (s : store) (epoch : Z) (cid : bytes) : list (bytes * bytes) :=
+    sfind (p_estimate ++ int_to_bytes epoch ++ cid) s.
 End Model.
 
 (** The constants of common/version.go at the pinned commit
